@@ -11,6 +11,13 @@ CHECKS = {
              "whole finite domain (608k set calls x 6 get notations) on every run.",
              note=TB + "Model: coq/model/Startbit.v (hand written).",
              technique="Coq proof over a Gallina model + exhaustive model/implementation correspondence", ref="5/C08"),
+ "C01": dict(text="Theorems (coq/props/C01.v) prove for EVERY payload length, width >= 1, placement inside the frame, byte order and "
+             "signedness that the decoded raw value is exactly the number formed by the convention's bits (bit sum; two's complement; float = the "
+             "field's pattern), that it depends on exactly those bits, the sawtooth walk, and the closed form of the length rule. The model is tied "
+             "to Frame.unpack/decode and CanMatrix.decode by a differential run (~58k cases quick, all lengths x widths x starts thorough) incl. "
+             "placements that leave the frame; the search evaluates the property on the implementation with an independent bit-sum oracle.",
+             note=TB + "Model: coq/model/Codec.v. struct's IEEE conversion is trusted (applied to both sides); PDU-container payload walking is not modelled (length rule covered by the gate model + metamorphic identity).",
+             technique="Coq proof over a Gallina model + model/implementation correspondence + oracle-based search", ref="5/C01"),
 }
 NOT_YET = {}
 props = [json.loads(l) for l in open(os.path.join(V, "properties.jsonl"))]
